@@ -654,6 +654,120 @@ impl<'a, N: Ord + Clone + 'a, D: 'a> IntervalTreeIterator<'a, N, D> {
     }
 }
 
+
+pub struct EntryMut<'a, N: Ord + Clone, D> {
+    data: &'a mut D,
+    interval: &'a Interval<N>,
+}
+pub struct IntervalTreeIteratorMut<'a, N: Ord + Clone, D> {
+    nodes: Vec<&'a mut Node<N, D>>,
+    interval: Interval<N>,
+}
+impl<N: Ord + Clone, D> Node<N, D> {
+    spec fn pending_m(nodes: Seq<&mut Node<N, D>>, qs: N, qe: N) -> Multiset<(N, N, D)> decreases nodes.len() {
+        if nodes.len() == 0 { Multiset::empty() } else { Self::pending_m(nodes.drop_last(), qs, qe).add(Self::ov((*nodes.last()).entries(), qs, qe)) }
+    }
+    spec fn total_m(nodes: Seq<&mut Node<N, D>>) -> nat decreases nodes.len() {
+        if nodes.len() == 0 { 0 } else { Self::total_m(nodes.drop_last()) + (*nodes.last()).size() }
+    }
+    spec fn all_wf_m(nodes: Seq<&mut Node<N, D>>) -> bool { forall|i: int| 0 <= i < nodes.len() ==> (*#[trigger] nodes[i]).wf() }
+}
+
+impl<'a, N: Ord + Clone + 'a, D: 'a> IntervalTreeIteratorMut<'a, N, D> {
+    spec fn inv(&self) -> bool { Node::<N, D>::all_wf_m(self.nodes@) && Node::<N, D>::total_order() }
+    spec fn pend(&self) -> Multiset<(N, N, D)> { Node::<N, D>::pending_m(self.nodes@, self.interval.range().start, self.interval.range().end) }
+
+    fn next(&mut self) -> (r: Option<EntryMut<'a, N, D>>)
+        requires old(self).inv()
+        ensures final(self).inv(), final(self).interval == old(self).interval,
+            match r {
+                Some(en) => {
+                    let e = (en.interval.range().start, en.interval.range().end, *en.data);
+                    overlaps(old(self).interval.range().start, old(self).interval.range().end, e.0, e.1)
+                    && old(self).pend() == final(self).pend().insert(e)
+                }
+                None => old(self).pend() == Multiset::<(N, N, D)>::empty() && final(self).pend() == Multiset::<(N, N, D)>::empty(),
+            }
+    {
+        let ghost qs = self.interval.range().start; let ghost qe = self.interval.range().end;
+        loop
+            invariant self.inv(), self.interval == old(self).interval, self.pend() == old(self).pend(),
+                qs == self.interval.range().start, qe == self.interval.range().end,
+            decreases Node::<N, D>::total_m(self.nodes@)
+        {
+            let ghost before = self.nodes@;
+            let candidate = match self.nodes.pop() {
+                None => return None,
+                Some(node) => node,
+            };
+            let ghost base = self.nodes@;
+            let ghost cv = *candidate;
+            let ghost me = (cv.interval.range().start, cv.interval.range().end, cv.value);
+            let ghost c1 = lt(qs, cv.max);
+            let ghost c2 = lt(me.0, qe);
+            let ghost el = Node::<N, D>::opt_entries(cv.left); let ghost er = Node::<N, D>::opt_entries(cv.right);
+            proof {
+                assert(before.drop_last() =~= base);
+                assert(*before.last() == cv);
+                assert(cv.wf());
+                cv.lemma_ov_split(qs, qe);
+                assert(Node::<N, D>::pending_m(before, qs, qe) == Node::<N, D>::pending_m(base, qs, qe).add(Node::<N, D>::ov(cv.entries(), qs, qe)));
+                assert(Node::<N, D>::total_m(before) == Node::<N, D>::total_m(base) + cv.size());
+                assert(cv.size() == 1 + Node::<N, D>::opt_size(cv.left) + Node::<N, D>::opt_size(cv.right));
+                if !c1 { Node::<N, D>::lemma_prune_max(cv.entries(), cv.max, qs, qe); }
+                if !c2 { Node::<N, D>::lemma_prune_start(er, me.0, qs, qe); }
+                assert(Node::<N, D>::ov(Multiset::<(N, N, D)>::empty(), qs, qe) =~= Multiset::<(N, N, D)>::empty());
+            }
+
+            // stop traversal if the query interval is beyond the current node and all children
+            if self.interval.start < candidate.max {
+                if let Some(ref mut left) = candidate.left {
+                    let ghost lv = **left;
+                    let __r: &mut Node<N, D> = &mut **left; self.nodes.push(__r);
+                    proof {
+                        assert(self.nodes@.drop_last() =~= base);
+                        assert(*self.nodes@.last() == lv);
+                        assert(lv == *cv.left->0);
+                        assert(Node::<N, D>::total_m(self.nodes@) == Node::<N, D>::total_m(base) + lv.size());
+                        assert(Node::<N, D>::pending_m(self.nodes@, qs, qe) == Node::<N, D>::pending_m(base, qs, qe).add(Node::<N, D>::ov(lv.entries(), qs, qe)));
+                    }
+                }
+                let ghost s1 = self.nodes@;
+                proof { if cv.left is None { assert(s1 == base); } }
+
+                // don't traverse right if the query interval is completely before the current interval
+                if self.interval.end > candidate.interval.start {
+                    if let Some(ref mut right) = candidate.right {
+                        let ghost rv = **right;
+                        let __r: &mut Node<N, D> = &mut **right; self.nodes.push(__r);
+                        proof {
+                            assert(self.nodes@.drop_last() =~= s1);
+                            assert(*self.nodes@.last() == rv);
+                            assert(rv == *cv.right->0);
+                            assert(Node::<N, D>::total_m(self.nodes@) == Node::<N, D>::total_m(s1) + rv.size());
+                            assert(Node::<N, D>::pending_m(self.nodes@, qs, qe) == Node::<N, D>::pending_m(s1, qs, qe).add(Node::<N, D>::ov(rv.entries(), qs, qe)));
+                        }
+                    }
+
+                    // overlap is only possible if both tests pass
+                    if intersect::<N, D>(&self.interval, &candidate.interval) {
+                        proof {
+                            assert(old(self).pend() =~= self.pend().insert(me));
+                        }
+                        return Some(EntryMut {
+                            data: &mut candidate.value,
+                            interval: &candidate.interval,
+                        });
+                    }
+                }
+            }
+            proof {
+                assert(self.pend() =~= old(self).pend());
+            }
+        }
+    }
+}
+
 fn intersect<N: Ord + Clone, D>(range_1: &Interval<N>, range_2: &Interval<N>) -> (r: bool)
     requires Node::<N, D>::total_order()
     ensures r == overlaps(range_1.range().start, range_1.range().end, range_2.range().start, range_2.range().end)
